@@ -135,6 +135,9 @@ async def run_script(job):
                 else:
                     try:
                         cl.r, cl.w = await open_conn()
+                        if c.get("nohandshake"):
+                            ev("connected", s=c["s"], cli=False, ok=True, text="(no handshake sent)")
+                            continue
                         cl.w.write(json.dumps({"terminal_width": 80}).encode() + b"\n")
                         await cl.w.drain()
                         name = await asyncio.wait_for(cl.r.readline(), BOUND)
@@ -237,17 +240,21 @@ def run_in_this_process(job):
     loop = asyncio.new_event_loop()
     asyncio.set_event_loop(loop)
     try:
-        trace = loop.run_until_complete(asyncio.wait_for(run_script(job), 90))
+        trace = loop.run_until_complete(asyncio.wait_for(run_script(job), 40))
         return {"ok": True, "trace": trace}
     except BaseException as e:
         import traceback
         return {"ok": False, "err": "%s: %s" % (type(e).__name__, e), "tb": traceback.format_exc(), "trace": []}
 
 
-def execute(job, timeout=120):
+def execute(job, timeout=45):
     """Run one script in a child process (hard timeout), return its trace."""
-    p = subprocess.run([sys.executable, "-W", "ignore", os.path.abspath(__file__), "-"], input=json.dumps(job), text=True,
-                       stdout=subprocess.PIPE, stderr=subprocess.PIPE, timeout=timeout, env=dict(os.environ, VERIF_REPO=REPO))
+    try:
+        p = subprocess.run([sys.executable, "-W", "ignore", os.path.abspath(__file__), "-"], input=json.dumps(job), text=True,
+                           stdout=subprocess.PIPE, stderr=subprocess.PIPE, timeout=timeout, env=dict(os.environ, VERIF_REPO=REPO))
+    except subprocess.TimeoutExpired:
+        # the whole process stopped responding (e.g. the event loop spins): an observation, not a harness failure
+        return {"ok": True, "trace": [{"e": "init", "ps": "?", "pobs": ""}, {"e": "hung", "secs": timeout, "pobs": ""}]}
     try:
         return json.loads(p.stdout.splitlines()[-1])
     except Exception:
